@@ -20,7 +20,11 @@ type snap struct {
 	nb   [][]int
 }
 
-const maxN = 4096 // a constructed graph of the workload never has more vertices
+const maxN = 4608 // a constructed graph that is read through all ordered pairs never has more vertices
+
+// maxFullN: decoder results up to this size are read through all ordered pairs
+// (observe); larger ones through the lean observer of thresholds.go.
+const maxFullN = 300
 
 // observe reads h through N, IsEdge, M, Degrees and Neighbours.  On a panic of
 // an observer (or an absurd N) it returns the kind and a description instead.
@@ -150,8 +154,9 @@ func (s *snap) judge(model *rg.G) (kind, observed, expected string) {
 	return "", "", ""
 }
 
-// isoVerdict: 1 isomorphic, 0 not isomorphic, -1 undecided (too large for the
-// backtracking oracle although the cheap invariants agree).
+// isoVerdict: 1 isomorphic, 0 not isomorphic, -1 undecided (the cheap
+// invariants agree and the budgeted search ran out of budget / the graph is
+// too large for it).
 func isoVerdict(a, b *rg.G) int {
 	if a.N != b.N || a.M() != b.M() || !eqInts(a.DegreeMultiset(), b.DegreeMultiset()) {
 		return 0
@@ -159,11 +164,21 @@ func isoVerdict(a, b *rg.G) int {
 	if a.Equal(b) {
 		return 1
 	}
+	// sum of the squared degrees = work of the invariant (triangles) and of a refinement round
+	work := 0
+	for _, d := range a.Degrees() {
+		work += d * d
+	}
+	if work > 20000000 {
+		return -1
+	}
 	if iso.Invariant(a) != iso.Invariant(b) {
 		return 0
 	}
 	if a.N > 48 {
-		return -1
+		// the budgeted search of isobig.go (a found map is verified pair by pair)
+		v, _ := isoBudgeted(a, b, 3000)
+		return v
 	}
 	if iso.FindIsomorphism(a, b, nil, nil) != nil {
 		return 1
